@@ -481,17 +481,34 @@ def run(ck):
     nt = timers.MAXR      # transmissions of one request before the IKE_SA gives up (library constant)
     subsets = [frozenset(s) for r in range(nt + 1) for s in itertools.combinations(range(nt), r)]
     ticks = ['0.25', '1', '3', 'irregular']
-    # (1) every request kind x role x lost subset x tick sequence
-    for x in 'AB':
-        for kind in KINDS:
-            if kind in ('initial', 'auth') and x == 'B':
+    # (1) every request kind x role x lost subset x tick sequence (thorough: again over other configurations, with other seeds for the irregular ticks)
+    more_confs = [None] if not thorough else [None, dict(v6=True), dict(mode='tunnel', ipsec_proto='ah', a_subnet='10.1.0.0/24', b_subnet='10.2.0.0/24'),
+                                             dict(ike_a={'encr': ['aes128'], 'integ': ['sha1'], 'prf': ['sha1'], 'dh': ['14']}), dict(auth='rsa'), dict(child_a={'encr': ['aes128'], 'integ': ['sha512'], 'dh': ['20']})]
+    for ci_, conf_ in enumerate(more_confs):
+        for x in 'AB':
+            for kind in KINDS:
+                if kind in ('initial', 'auth') and x == 'B':
+                    continue
+                for lost in subsets:
+                    for tname in ticks:
+                        n += 1
+                        if not ck.mine(n):
+                            continue
+                        run_lost(ck, mk(), base + n, x, kind, lost, tname, conf=dict(conf_) if conf_ else None)
+    # (10, thorough) random lossy histories (the C09 walk) with the retransmission rules, the table and the SAD judged at every step
+    if thorough:
+        from vf.checks.c09 import WALK_CONFS
+        rngw = ck.rng('c13-walks', ck.shard[0])
+        for w in range(80000):
+            if not ck.mine(w):
                 continue
-            for lost in subsets:
-                for tname in ticks:
-                    n += 1
-                    if not ck.mine(n):
-                        continue
-                    run_lost(ck, mk(), base + n, x, kind, lost, tname)
+            sc = walk.Scenario(base + 7919 * w, [timers.TimerMonitor(ck, judge_dpd=False), monitors.TableMonitor(ck), monitors.SadMonitor(ck)], dict(WALK_CONFS[w % len(WALK_CONFS)]), n_children=1 + w % 2)
+            if not sc.ok:
+                continue
+            walk.random_walk(sc, rngw, rngw.randrange(8, 28), lossy=True)
+            sc.settle()
+            ck.count('walks.lossy')
+            ck.nontrivial(repr(sc.sim.case['actions']))
     # (2) retries
     retry_cases = [('initial', 'A', IKE_DH_MISMATCH, 'invalid_ke'), ('initial', 'A', {}, 'cookie'), ('acquire', 'A', CHILD_DH_MISMATCH, 'invalid_ke'),
                    ('acquire', 'B', CHILD_DH_MISMATCH, 'invalid_ke'), ('expire_soft', 'A', CHILD_DH_MISMATCH, 'invalid_ke'), ('rekey_ike', 'A', IKE_DH_MISMATCH, 'invalid_ke'),
